@@ -76,6 +76,7 @@ macro_rules! dispatch {
             "C04" => $f(&props::c04::C04 $(, $arg)*),
             "C05" => $f(&props::c05::C05 $(, $arg)*),
             "C07" => $f(&props::c07::C07 $(, $arg)*),
+            "C06" => $f(&props::c06::C06 $(, $arg)*),
             other => {
                 eprintln!("unknown property {}", other);
                 3
